@@ -8,9 +8,9 @@ cd $wt || exit 2
 git diff -- pyins > $out/patch.diff
 cp demo.py $out/demo.py
 /venv/bin/python demo.py > $out/demo_with_change.txt 2>&1; rc_with=$?
-git stash -q -- pyins
+git apply -R $out/patch.diff   # (git stash is shared between worktrees of one repository: never use it here)
 /venv/bin/python demo.py > $out/demo_without_change.txt 2>&1; rc_without=$?
-git stash pop -q
+git apply $out/patch.diff
 /venv/bin/python -m pytest -q -p no:cacheprovider --timeout=900 pyins/tests > $out/pytest_with_change.txt 2>&1
 summary=$(tail -1 $out/pytest_with_change.txt)
 failed=$(grep -c "^FAILED" $out/pytest_with_change.txt)
